@@ -23,6 +23,7 @@ import (
 type c20File struct {
 	Data gen.Data `json:"data"`
 	Mode uint32   `json:"mode"`
+	Name string   `json:"name,omitempty"` // file name (relative path) instead of f<i>.dat
 	Size *string  `json:"size,omitempty"` // when set for any file, every file is compressed by its own invocation with its own -size
 }
 
@@ -210,6 +211,16 @@ func runC20(c c20Case, rec *stat.Rec) *stat.Failure {
 		datas := map[string][]byte{}
 		for i, f := range c.Files {
 			name := fmt.Sprintf("f%d.dat", i)
+			if f.Name != "" {
+				name = fmt.Sprintf(f.Name, i)
+				if err := os.MkdirAll(filepath.Dir(filepath.Join(dir, name)), 0o777); err != nil {
+					return stat.Failf("harness-problem", "%v", err)
+				}
+				rec.Class("name/unusual-file-name")
+				if strings.Contains(name, ".lz4") {
+					rec.Class("name/contains-.lz4")
+				}
+			}
 			data := f.Data.Build()
 			if c.Rerun {
 				// an earlier, longer version of the same file was compressed before
@@ -353,7 +364,13 @@ func drawC20(t *rapid.T) c20Case {
 			}
 			d = gen.Data{Segs: segs}
 		}
-		c.Files = append(c.Files, c20File{Data: d, Mode: mode})
+		f := c20File{Data: d, Mode: mode}
+		if rapid.IntRange(0, 3).Draw(t, "name?") == 0 {
+			// names the command has to derive the other name from: an .lz4 file compressed again, ".lz4" inside the name or in a
+			// directory component, several dots, no extension, spaces, a hidden file
+			f.Name = rapid.SampledFrom([]string{"x%d.lz4", "archive%d.lz4.bak", "store.lz4.d/data%d", "a.b.c%d.tar", "noext%d", "with space %d.txt", ".hidden%d", "dir%d/sub/file.bin", "%d.lz4.lz4"}).Draw(t, "name")
+		}
+		c.Files = append(c.Files, f)
 	}
 	if nf > 1 && !c.Rerun && rapid.IntRange(0, 2).Draw(t, "mixedsizes") == 0 {
 		for i := range c.Files {
@@ -371,11 +388,12 @@ const c20Rule = "the lz4c binary built from the working tree (alternate go.mod w
 	"x -l {absent,0,1,2,5,9} x -c {absent,1,2}; optionally the output file already exists from an earlier, longer version of the input. Oracle: exit status 0 and every expected output present; " +
 	"x.lz4 is exactly one strictly valid frame (independent parser) whose content is the file; the header shows what the usage text says (-bc => block checksums, -sc => no content checksum, default " +
 	"=> content checksum, -size => block-size code); -l n => bytes equal to the library Writer at Level n (differential); same permission bits; uncompress restores bytes and permission bits. " +
+	"File names: f<i>.dat or (1 in 4) one of {x.lz4, archive.lz4.bak, store.lz4.d/data, a.b.c.tar, noext, 'with space.txt', .hidden, dir/sub/file.bin, n.lz4.lz4}. " +
 	"Non-trivial = file larger than one block or a non-default flag; distinct by (flags, size, content)."
 
 func TestC20(t *testing.T) {
 	rec := stat.For("C20")
 	rec.SetRule(c20Rule)
-	rec.Require("nontrivial", "mode/stdin-is-a-regular-file", "mode/files-with-different-block-sizes", "mode/stdin-stdout", "mode/several-files", "mode/output-file-existed", "flag/bc", "flag/sc", "flag/l>0", "level/differs-from-fast", "level/8-differs-from-7", "level/6-differs-from-5", "level/3-differs-from-2", "input/empty", "input/bs", "input/k*bs")
+	rec.Require("nontrivial", "name/contains-.lz4", "mode/stdin-is-a-regular-file", "mode/files-with-different-block-sizes", "mode/stdin-stdout", "mode/several-files", "mode/output-file-existed", "flag/bc", "flag/sc", "flag/l>0", "level/differs-from-fast", "level/8-differs-from-7", "level/6-differs-from-5", "level/3-differs-from-2", "input/empty", "input/bs", "input/k*bs")
 	checkProp(t, "C20", "C20/cli", pick(4000, 60000), drawC20, runC20)
 }
